@@ -132,6 +132,25 @@ def run(shard, rec):
                 break
         rec.case(case, nontrivial=True)
 
+    # one payload well above 64 KiB (block-wise decoding must respect element boundaries for every byte length)
+    r_len = (q.bit_length() + 7) // 8 if field.ext_deg == 1 else ((q - 1).bit_length() + 7) // 8
+    nbig = 150000 // max(1, r_len) + 7
+    big = [rng.randrange(q) for _ in range(nbig)]
+    case = [fname, 'bytes-large', nbig]
+    if rec.wants(case):
+        rec.count('byte_roundtrips')
+        rec.count('large_payloads')
+        with rec.guard(f'{fname}: to_bytes/from_bytes of {nbig} values', case, {'mechanism': 'bytes-roundtrip'}) as g:
+            data = field.to_bytes([field(v).value for v in big])
+            back = field.from_bytes(data)
+        if not g.failed:
+            backv = [field(v) for v in back]
+            if len(backv) != nbig or backv != [field(v) for v in big]:
+                firstbad = next((i for i in range(min(len(backv), nbig)) if backv[i] != field(big[i])), min(len(backv), nbig))
+                rec.violation(f'{fname}: from_bytes(to_bytes(x)) != x for a list of {nbig} values ({len(data)} bytes): {len(backv)} values back, first difference at index {firstbad}',
+                              {'mechanism': 'bytes-roundtrip', 'large': True}, {'case': case}, case=case)
+        rec.case(case, nontrivial=True)
+
     if shard['mode'] == 'all':
         roundtrip([])
         for v in range(q):
